@@ -17,6 +17,9 @@ def sites_of(ix):
             out.append(('G', g['name']))
     for a in ix.asites:
         out.append(('A', a))
+    for m in ix.order:
+        out.append(('C', m['name']))      # exception_caught of that machine
+        out.append(('T', m['name']))      # no_transition of that machine
     return out
 
 
